@@ -2302,3 +2302,163 @@ theorem filter_max_width_eq (l1 l2 : List (String × Val)) (hp : l1.Perm l2)
       exact hn.1.1 (ha.trans hb.symm)
 
 end RF.Lemmas.Config
+
+/-! ## Printing and loading the printed text -/
+
+namespace RF.Lemmas.Config
+open RF.Config RF.Gen.Options
+
+theorem lookup_filter_key {β} (l : List (String × β)) (p : String → Bool) (k : String) :
+    (l.filter fun kv => p kv.1).lookup k = if p k then l.lookup k else none := by
+  induction l with
+  | nil => simp
+  | cons a r ih =>
+    obtain ⟨k0, b⟩ := a
+    by_cases hk : k = k0
+    · subst hk
+      by_cases hp : p k = true
+      · simp [List.filter, hp]
+      · have hp' : p k = false := by simpa using hp
+        simp only [List.filter, hp', ih, Bool.false_eq_true, if_false]
+    · have hb : (k == k0) = false := by simpa using hk
+      by_cases hp0 : p k0 = true
+      · simp only [List.filter, hp0, List.lookup_cons, hb, ih]
+      · have hp0' : p k0 = false := by simpa using hp0
+        simp only [List.filter, hp0', List.lookup_cons, hb, ih]
+
+theorem lookup_some_of_mem_keys (c : Config) (k : String) (h : k ∈ c.map (·.1)) :
+    c.lookup k = some (getE c k) := by
+  induction c with
+  | nil => cases h
+  | cons a r ih =>
+    obtain ⟨k0, e⟩ := a
+    rw [getE_cons]
+    simp only [List.lookup_cons]
+    by_cases hk : k = k0
+    · subst hk; simp
+    · have hb : (k == k0) = false := by simpa using hk
+      simp only [hb, hk, if_false]
+      simp only [List.map_cons, List.mem_cons, hk, false_or] at h
+      exact ih h
+
+/-- What `to_toml` prints for an option: its value, unless it is on the hidden list. -/
+theorem lookup_printed (c : Config) (hkeys : c.map (·.1) = optionNames) (k : String)
+    (hk : k ∈ optionNames) :
+    ((allOptions c).filter fun kv => !tomlHidden.contains kv.1).lookup k =
+      if tomlHidden.contains k then none else some (getE c k).val := by
+  rw [lookup_filter_key (allOptions c) (fun k => !tomlHidden.contains k) k]
+  unfold allOptions
+  rw [lookup_map_snd c (fun o => o.2.val) k, lookup_some_of_mem_keys c k (hkeys ▸ hk)]
+  cases tomlHidden.contains k <;> rfl
+
+theorem lookup_of_mem_nodup {β} (l : List (String × β)) (k : String) (b : β) (h : (k, b) ∈ l)
+    (hnd : (l.map (·.1)).Nodup) : l.lookup k = some b := by
+  induction l with
+  | nil => cases h
+  | cons a r ih =>
+    obtain ⟨k0, b0⟩ := a
+    simp only [List.map_cons, List.nodup_cons] at hnd
+    rcases List.mem_cons.1 h with heq | hr
+    · cases heq; simp [List.lookup_cons]
+    · have hne : k ≠ k0 := fun e => hnd.1 (e ▸ List.mem_map.2 ⟨(k, b), hr, rfl⟩)
+      have hb : (k == k0) = false := by simpa using hne
+      simp only [List.lookup_cons, hb]
+      exact ih hr hnd.2
+
+theorem toToml_some (c : Config) (l : List (String × Val)) (h : toToml c = some l) :
+    l = (allOptions c).filter fun kv => !tomlHidden.contains kv.1 := by
+  unfold toToml at h
+  simp only at h
+  split at h
+  · cases h; rfl
+  · cases h
+
+theorem isStable_nightly (k : String) (v : Val) : isStableOptionAndValue ⟨true⟩ k v = true := by
+  unfold isStableOptionAndValue
+  cases stableOf k <;> cases variantStable k v <;> rfl
+
+/-- Print, then load: every printed option comes back with its value, provided every width is at most
+`max_width` (no F8b) and the printed values are well-typed. -/
+theorem roundTrip_values (c : Config) (l : List (String × Val))
+    (hkeys : c.map (·.1) = optionNames) (hprint : toToml c = some l)
+    (htyped : validParsed l = true)
+    (hwidth : ∀ w ∈ widthKeys, natOf c w ≤ natOf c "max_width") :
+    ∃ c2, roundTrip ⟨true⟩ c = some c2 ∧
+      ∀ k ∈ optionNames, tomlHidden.contains k = false → (getE c2 k).val = (getE c k).val := by
+  have hl := toToml_some c l hprint
+  have hlook : ∀ k ∈ optionNames, l.lookup k =
+      if tomlHidden.contains k then none else some (getE c k).val := by
+    intro k hk; rw [hl]; exact lookup_printed c hkeys k hk
+  refine ⟨toParsedConfig ⟨true⟩ l none none none, by simp [roundTrip, hprint, fromToml, htyped], ?_⟩
+  intro k hk hnh
+  unfold toParsedConfig
+  rw [defaultForPossible_eq]
+  generalize chosenStyleEdition _ _ _ = se
+  unfold fillFromParsedConfig setVersion
+  simp only
+  -- the hidden aliases are not in the text, so the alias setters do nothing
+  have hws : ∀ a, a ∈ optionNames → tomlHidden.contains a = true →
+      wasSet (setHeuristics (optionNames.foldl (fillStore ⟨true⟩ l) (defaultWithStyleEdition se))) a
+        = false := by
+    intro a ha hh
+    rw [wasSet_setHeuristics]
+    unfold wasSet
+    rw [getE_fillFold_nightly _ l a ha, hlook a ha, hh]
+    simp only [if_true]
+    exact wasSet_default se a
+  have m1 : "merge_imports" ∈ optionNames ∧ "fn_args_layout" ∈ optionNames ∧
+      "hide_parse_errors" ∈ optionNames := by decide +kernel
+  have h1 : tomlHidden.contains "merge_imports" = true ∧ tomlHidden.contains "fn_args_layout" = true ∧
+      tomlHidden.contains "hide_parse_errors" = true := by decide
+  rw [setMergeImports_eq, setAlias_of_not_set _ _ _ _ (hws _ m1.1 h1.1),
+    setFnArgsLayout_eq, setAlias_of_not_set _ _ _ _ (hws _ m1.2.1 h1.2.1),
+    setHideParseErrors_eq, setAlias_of_not_set _ _ _ _ (hws _ m1.2.2 h1.2.2)]
+  -- the store loop puts the printed value back, `set_heuristics` keeps it
+  have hfill : ∀ k' ∈ optionNames, tomlHidden.contains k' = false →
+      getE (optionNames.foldl (fillStore ⟨true⟩ l) (defaultWithStyleEdition se)) k' =
+        storeFn true false (getE c k').val (getE (defaultWithStyleEdition se) k') := by
+    intro k' hk' hh
+    rw [getE_fillFold_nightly _ l k' hk', hlook k' hk', hh]
+    simp
+  rw [getE_setHeuristics]
+  by_cases hw : k ∈ widthKeys
+  · -- a width: it was set, so it is clamped against max_width, which it does not exceed
+    have hmwm : "max_width" ∈ optionNames ∧ tomlHidden.contains "max_width" = false := by
+      decide +kernel
+    have hcv : checkVal k (getE c k).val = true :=
+      checkVal_of_validParsed l htyped k _ (by rw [hlook k hk, hnh]; simp) hk
+    have htag : tagOf k = some .nat := by
+      have : ∀ w ∈ widthKeys, tagOf w = some .nat := by decide +kernel
+      exact this k hw
+    obtain ⟨n, hn⟩ : ∃ n, (getE c k).val = .nat n := by
+      unfold checkVal at hcv
+      rw [htag] at hcv
+      cases hv : (getE c k).val with
+      | nat n => exact ⟨n, rfl⟩
+      | bool b => rw [hv] at hcv; simp at hcv
+      | str s => rw [hv] at hcv; simp at hcv
+    rw [hfill k hk hnh, hfill "max_width" hmwm.1 hmwm.2]
+    unfold heurEntry
+    cases heurOf _ _ with
+    | none => simp [storeFn]
+    | some h =>
+      simp only
+      obtain ⟨hv, hlk⟩ := lookup_toList_some h k hw
+      rw [hlk]
+      have hle : n ≤ (getE c "max_width").val.toNat := by
+        have h0 := hwidth k hw
+        unfold natOf at h0
+        rw [hn] at h0
+        exact h0
+      simp only [widthEntry, storeFn, Bool.or_true, hn]
+      have e : (Val.nat n).toNat = n := rfl
+      rw [e]
+      unfold getWidthValue
+      simp only [Bool.not_true, Bool.false_eq_true, if_false]
+      generalize (getE c "max_width").val.toNat = mw at hle
+      have hgt : ¬ n > mw := by omega
+      rw [if_neg hgt]
+  · rw [heurEntry_of_not_width _ _ _ _ hw, hfill k hk hnh]
+    simp [storeFn]
+
+end RF.Lemmas.Config
